@@ -42,7 +42,12 @@ def translate():
     # the operator forms (impl Add/Sub/Neg/Mul/...Assign blocks of both backends)
     oout = os.path.join(LEAN, 'Decaf', 'Generated', 'OpForms.lean')
     rc3, log3 = sh([sys.executable, os.path.join(VERIF, 'translator', 'extract_opforms.py'), REPO, oout])
-    return rc3 == 0, (log.strip() + '; ' + log2.strip() + '; ' + log3.strip())
+    if rc3 != 0:
+        return False, (log.strip() + '; ' + log2.strip() + '; ' + log3.strip())
+    # the conversion entry points (impl From / TryFrom between byte strings, Encoding and Element)
+    cout = os.path.join(LEAN, 'Decaf', 'Generated', 'ConvForms.lean')
+    rc4, log4 = sh([sys.executable, os.path.join(VERIF, 'translator', 'extract_convforms.py'), REPO, cout])
+    return rc4 == 0, (log.strip() + '; ' + log2.strip() + '; ' + log3.strip() + '; ' + log4.strip())
 
 
 def formula_status():
@@ -57,6 +62,12 @@ def formula_status():
                             reason='; '.join(o['untranslated']) or None)
         if o['untranslated']:
             d['opforms']['status'] += '; %d outside the grammar (correspondence only): %s' % (len(o['untranslated']), '; '.join(o['untranslated'])[:300])
+    except (OSError, ValueError, KeyError):
+        pass
+    try:
+        c = json.load(open(os.path.join(LEAN, 'Decaf', 'Generated', 'ConvForms.index.json')))
+        d['convforms'] = dict(status='translated %s conversion entry points %s' % (sum(c['counts'].values()), c['counts'])
+                              + ('; %d outside the grammar (correspondence only): %s' % (len(c['untranslated']), '; '.join(c['untranslated'])[:300]) if c['untranslated'] else ''))
     except (OSError, ValueError, KeyError):
         pass
     return d
@@ -490,7 +501,7 @@ def main():
             samples=samples if samples else [dict(obligation=t) for t in thm_names[:5]] or extra_lines[:5],
             explanation=P.get('explanation', ''),
             translated_functions={k: (v.get('status') + (' lines %d-%d of %s' % (v['lines'][0], v['lines'][1], v['file']) if v.get('lines')
-                                                          else '' if k == 'opforms' else ' (%s): tie for this function is the correspondence check only' % v.get('reason', '?')))
+                                                          else '' if k in ('opforms', 'convforms') else ' (%s): tie for this function is the correspondence check only' % v.get('reason', '?')))
                                   for k, v in formula_status().items() if k in P.get('formulas', [])} or None,
             constants_checked=len([l for l in extra_lines if l.startswith('ok')]) if extra_lines else None,
         ),
